@@ -64,7 +64,9 @@ type AssertionSpec struct {
 	AuthnInstant string
 	SessionNOA   string
 	NoSubject, NoConf, NoData, NoConditions bool
+	UseCDATA     bool // serialise NameID / attribute values as CDATA sections (the IdP signs that layout)
 	// bookkeeping
+	Relocated     bool      // an attacker edit moved the genuine element away from being a direct child of the root
 	SignedBy      *SignOpts // assertion-level signature, if any
 	CoveredByResp bool      // inside a Response that was signed
 	Encrypted     *EncOpts
@@ -125,6 +127,7 @@ func (g *xgen) okAssertionSpec(i int) *AssertionSpec {
 	if g.r.Intn(3) == 0 {
 		a.NameID = sp(g.value())
 	}
+	a.UseCDATA = g.r.Intn(5) == 0
 	return a
 }
 
@@ -136,6 +139,54 @@ func (g *xgen) okResponseSpec(n int) *ResponseSpec {
 		rs.Assertions = append(rs.Assertions, g.okAssertionSpec(i))
 	}
 	return rs
+}
+
+// setTextMaybeCDATA: the text is always built as plain character data (goxmldsig's signer would otherwise digest the
+// literal CDATA markup, which no conforming IdP does); CDATA layout is applied to the serialised bytes after signing
+// (cdataLayout), which leaves the canonical form, and therefore the signature, unchanged.
+func setTextMaybeCDATA(el *etree.Element, s string, cdata bool) {
+	el.SetText(s)
+}
+
+func etreeEscapedText(s string) string {
+	d := etree.NewDocument()
+	d.CreateElement("x").SetText(s)
+	out, _ := d.WriteToString()
+	out = strings.TrimPrefix(out, "<x>")
+	out = strings.TrimSuffix(out, "</x>")
+	if out == "<x/>" {
+		return ""
+	}
+	return out
+}
+
+// cdataLayout rewrites ">escaped-text</" into "><![CDATA[text]]></" for the values of assertions marked UseCDATA.
+func cdataLayout(raw []byte, rs *ResponseSpec) ([]byte, bool) {
+	s := string(raw)
+	changed := false
+	for _, a := range rs.Assertions {
+		if !a.UseCDATA || a.Encrypted != nil {
+			continue
+		}
+		var vals []string
+		if a.NameID != nil {
+			vals = append(vals, *a.NameID)
+		}
+		for _, at := range a.Attrs {
+			vals = append(vals, at.Values...)
+		}
+		for _, v := range vals {
+			if v == "" || strings.Contains(v, "]]>") || strings.ContainsAny(v, "\r") {
+				continue
+			}
+			old := ">" + etreeEscapedText(v) + "</"
+			if i := strings.Index(s, old); i >= 0 {
+				s = s[:i] + "><![CDATA[" + v + "]]></" + s[i+len(old):]
+				changed = true
+			}
+		}
+	}
+	return []byte(s), changed
 }
 
 func buildAssertion(st nsStyle, a *AssertionSpec) *etree.Element {
@@ -155,7 +206,7 @@ func buildAssertion(st nsStyle, a *AssertionSpec) *etree.Element {
 		if a.NameID != nil {
 			n := sub.CreateElement(st.a("NameID"))
 			n.CreateAttr("Format", "urn:oasis:names:tc:SAML:1.1:nameid-format:emailAddress")
-			n.SetText(*a.NameID)
+			setTextMaybeCDATA(n, *a.NameID, a.UseCDATA)
 		}
 		if !a.NoConf {
 			sc := sub.CreateElement(st.a("SubjectConfirmation"))
@@ -218,7 +269,7 @@ func buildAssertion(st nsStyle, a *AssertionSpec) *etree.Element {
 				ae.CreateAttr("NameFormat", at.Format)
 			}
 			for _, v := range at.Values {
-				ae.CreateElement(st.a("AttributeValue")).SetText(v)
+				setTextMaybeCDATA(ae.CreateElement(st.a("AttributeValue")), v, a.UseCDATA)
 			}
 		}
 	}
